@@ -29,7 +29,7 @@ ASSUMPTIONS = [
 BUDGET = {"quick": 75, "thorough": 800}
 ROUNDS = {"thorough": 16}
 FLOORS = {"after_update_comparisons": {"quick": 400, "thorough": 4000}, "batched_heights_rows": {"quick": 300, "thorough": 3000}, "reference_comparisons": {"quick": 800, "thorough": 8000}, "metamorphic_checks": {"quick": 500, "thorough": 5000},
-          "models": 6, "schemes": 4, "permuted": 300, "batched_rows": 100}
+          "models": 6, "schemes": 4, "permuted": 300, "batched_rows": 100, "grids_given_by_cutoff": 40}
 
 MODELS = ["constant", "exponential", "skyride", "skygrid", "linear", "piecewise-exponential"]
 
@@ -207,6 +207,9 @@ TYPE = {"constant": "ConstantCoalescentModel", "exponential": "ExponentialCoales
         "piecewise-exponential": "PiecewiseExponentialCoalescentGridModel"}
 
 
+_USED_CUTOFF = [0]
+
+
 def model_json(m, d, entry, s=None, c=None, id_="coal", theta=None, grid=None, growth=None, perm=True):
     s = d["sampling"] if s is None else s
     c = d["coalescent"] if c is None else c
@@ -215,7 +218,15 @@ def model_json(m, d, entry, s=None, c=None, id_="coal", theta=None, grid=None, g
     if m in ("exponential", "piecewise-exponential"):
         j["growth"] = gm.param(id_ + ".growth", d["growth"] if growth is None else growth, dtype="torch.float64")
     if m in ("skygrid", "linear", "piecewise-exponential"):
-        j["grid"] = gm.param(id_ + ".grid", d["grid"] if grid is None else grid, dtype="torch.float64")
+        gvals = d["grid"] if grid is None else grid
+        g_ = np.asarray(gvals, dtype=float)
+        even = g_.ndim == 1 and len(g_) >= 1 and np.allclose(g_, np.linspace(0, g_[-1], len(g_) + 1)[1:], rtol=1e-15, atol=0)
+        if even and m in ("skygrid", "linear") and int(1e6 * g_[-1]) % 2 == 0:
+            # an evenly spaced grid written the way torchtree-cli writes it: by its last point only
+            j["cutoff"] = float(g_[-1])
+            _USED_CUTOFF[0] += 1
+        else:
+            j["grid"] = gm.param(id_ + ".grid", gvals, dtype="torch.float64")
     if entry == "data":
         ps = d["perm_s"] if perm else list(range(len(s)))
         pc = d["perm_c"] if perm else list(range(len(c)))
@@ -384,7 +395,7 @@ def run_case(case):
         rng_u = np.random.default_rng(case["seed"] + 17)
         d2 = dict(d)
         for _ in range(2):
-            names = ["theta"] + (["growth"] if m == "exponential" else []) + (["grid"] if m in ("skygrid", "linear") else [])
+            names = ["theta"] + (["growth"] if m == "exponential" else []) + (["grid"] if m in ("skygrid", "linear") and "coal.grid" in dic else [])
             nm = names[int(rng_u.integers(len(names)))]
             if nm == "theta":
                 d2["theta"] = [float(x * np.exp(rng_u.normal(0, 0.7))) for x in d2["theta"]]
@@ -439,4 +450,6 @@ def run_case(case):
     sample = None
     if n <= 6:
         sample = {"case": case, "sampling": d["sampling"], "coalescent": d["coalescent"], "theta": d["theta"], "grid": d.get("grid"), "library": val.tolist(), "reference": refs}
+    C["grids_given_by_cutoff"] = _USED_CUTOFF[0]
+    _USED_CUTOFF[0] = 0
     return {"violations": V, "counters": C, "fingerprint": fp, "sample": sample}
